@@ -70,6 +70,13 @@ impl DSSEParser for PaeV1 {
 
         // Extract payload_ver from bytes
         let (payload_ver_len, raw) = consume_load_len(raw)?;
+        if raw.len() <= payload_ver_len {
+            return Err(Error::PAEParseFailed(format!(
+                "payload type length {} exceeds the remaining {} bytes",
+                payload_ver_len,
+                raw.len()
+            )));
+        }
         let payload_ver = str::from_utf8(&raw[0..payload_ver_len])?
             .parse::<String>()
             .map_err(|_| {
@@ -82,6 +89,13 @@ impl DSSEParser for PaeV1 {
         // Extract payload from bytes
         let (payload_len, raw) =
             consume_load_len(&raw[(payload_ver_len + 1)..])?;
+        if raw.len() < payload_len {
+            return Err(Error::PAEParseFailed(format!(
+                "payload length {} exceeds the remaining {} bytes",
+                payload_len,
+                raw.len()
+            )));
+        }
         let payload = raw[0..payload_len].to_vec();
 
         Ok((payload, payload_ver))
